@@ -469,6 +469,8 @@ sgsitrf(superlu_options_t *options, SuperMatrix *A, int relax, int panel_size,
 		nseg = nseg1;	/* Begin after all the panel segments */
 
 		nnzAj += xa_end[jj] - xa_begin[jj];
+		/* Column entirely zero: as in the relaxed-supernode branch */
+		if (amax[jj - jcol] == 0.0) amax[jj - jcol] = fill_ini;
 
 		if ((*info = ilu_scolumn_dfs(m, jj, perm_r, &nseg,
 					     &panel_lsub[k], segrep, &repfnz[k],
